@@ -66,7 +66,7 @@ def bounds(tier):
 
 
 def shards(tier):
-    return [("month", m) for m in range(1, 13)] + [("non", 0), ("unicode", 0), ("leak", 0), ("nofield", 0), ("after", 0)]
+    return [("month", m) for m in range(1, 13)] + [("non", 0), ("construction", 0), ("unicode", 0), ("leak", 0), ("nofield", 0), ("after", 0)]
 
 
 def _sub_non_months():
@@ -396,12 +396,39 @@ def mk_nofield():
     return Library([e, String("month", "1")])
 
 
+ORDER_CONFIGS = [(k, ip) for k in ("int", "abbr", "long") for ip in (True, False)]
+ORDER_PROBES = [1, 12, 0, 13, "1", "01", "12", "13", "jan", "JAN", "Jan", "january", "January", "MAY", "may", "sept", "september", "{jan}", '"1"', "Spring", "spring", "", " 1", "1\n"]
+
+
+def order_behaviour(cfg):
+    k, ip = cfg
+    m = {"int": MonthIntMiddleware, "abbr": MonthAbbreviationMiddleware, "long": MonthLongStringMiddleware}[k](allow_inplace_modification=ip)
+    out = []
+    for v in ORDER_PROBES:
+        try:
+            e = m.transform(Library([Entry("a", "k", [Field("month", v)])])).blocks[0]
+            out.append(type(e.fields[0].value).__name__ + ":" + repr(e.fields[0].value))
+        except Exception as ex:
+            out.append("raised:" + type(ex).__name__)
+    return out
+
+def check_construction_order(acc):
+    """mc/order.py: every ordered pair of configurations, against each configuration first in a fresh interpreter."""
+    import sys
+
+    from .. import order
+
+    order.run(sys.modules[__name__], acc, group=lambda cfg: 0)
+
+
 def run_shard(shard, tier, acc):
     if shard[0] == "month":
         check_month(shard[1], acc)
         check_subtypes(shard[1], acc)
         check_zeros(shard[1], acc)
         check_chains(shard[1], acc)
+    elif shard[0] == "construction":
+        check_construction_order(acc)
     elif shard[0] == "non":
         check_unchanged(NON_MONTHS, acc)
     elif shard[0] == "unicode":
@@ -416,7 +443,9 @@ def run_shard(shard, tier, acc):
 
 def replay(case, acc):
     # the spaces are small: re-run the part the case belongs to
-    if "leak_sequence" in case:
+    if "construction_order" in case:
+        check_construction_order(acc)
+    elif "leak_sequence" in case:
         check_leak(acc)
     elif "no_month_field" in case:
         check_nofield(acc)
